@@ -69,6 +69,15 @@ CHECKS = {
         "Only well-formed JSON-RPC requests/notifications; the reference model is checks/c01.py:expected_responses.",
         "DESIGN.md §3 C01",
     ),
+    "C09": (
+        "exploration",
+        "enumeration of (document x position x method) over the sample corpus and intrinsic tables + Hypothesis text mutation, with a totality / LSP-shape / range-in-document oracle",
+        "Every positional method is sent at every interesting position (thorough: every position) of every repository sample, of mutated "
+        "samples and on every intrinsic/keyword table entry; an error response, a result not matching the LSP 3.17 shape, or any range that "
+        "does not address an existing place of the server's copy of the target document is a violation (grouped by failing code site).",
+        "Shapes as encoded in harness/shapes.py; ranges validated against the server's own buffer of the target document.",
+        "DESIGN.md §3 C09",
+    ),
 }
 
 NOT_YET = "check not built yet in this session (work in progress; see DESIGN.md §3 for the planned generator and oracle)"
